@@ -28,6 +28,11 @@ RULE = (
     "annotation moved to another view, one structure indexed/unindexed. A small extra stream has two FSArrays "
     "containing each other (outside the premise; rendering must not raise, model compared with hash := len(elements)). "
     "Texts are taken with default options, covered_text=False, mark_indexed=False and exclude_types={one type}. "
+    "Type-system history: in every third pair (and in a directed stream of 8 small pairs over {Base, Sub <: Base}) the "
+    "TypeSystem object is not complete when it is first used: the base CAS restricted to the features that exist so far is "
+    "rendered, then the remaining user features (always including the feature through which a must-differ pair differs; "
+    "declared on the type of the structure or on a supertype; one or two stages) are created with create_feature on the "
+    "same object, then the pair is built and compared; the renderings in between are checked by the oracle as well. "
     "A case is non-trivial when its variant is a content mutation or it has a mixed type or a nested array."
 )
 TRUSTED = [
@@ -82,6 +87,56 @@ def _schema(cassis, tspec):
             _TS_CACHE.clear()
         _TS_CACHE[k] = (scen.build_ts(cassis, tspec), scen.schema_of(cassis, tspec))
     return _TS_CACHE[k]
+
+
+# --- staged type systems: sc["stages"] = [[[type, feature], ...], ...] names the user features that are created on the
+# TypeSystem object only AFTER a CAS over it has been rendered (stage k+1 after the k-th warm-up rendering).
+
+
+def _stage_rank(sc):
+    return {(d, f): i + 1 for i, st in enumerate(sc.get("stages") or []) for d, f in st}
+
+
+def _tspec_upto(sc, k):
+    rank = _stage_rank(sc)
+    return [dict(t, feats=[f for f in t["feats"] if rank.get((t["name"], f["name"]), 0) <= k]) for t in sc["ts"]]
+
+
+def _case_schema(cassis, sc, upto=None):
+    """Independent schema of the case.  For a staged type system the effective feature lists are put into the order
+    Type.all_features has after that history (own features in creation order; inherited: built-in ones, then user features
+    in creation order), features of stages after `upto` left out.  Only the traversal order depends on this order."""
+    if not sc.get("stages"):
+        return _schema(cassis, sc["ts"])[1]
+    rank = _stage_rank(sc)
+    full = scen.schema_of(cassis, sc["ts"])
+    n_own = {t["name"]: len(t["feats"]) for t in sc["ts"]}
+    last = len(sc["stages"]) if upto is None else upto
+    out = {}
+    for n, s in full.items():
+        if n not in n_own:
+            out[n] = s
+            continue
+
+        def rk(fd, anc=s["anc"]):
+            return next((rank[(a, fd[1])] for a in anc if (a, fd[1]) in rank), 0)
+
+        own, inh = s["feats"][:n_own[n]], s["feats"][n_own[n]:]
+        feats = sorted(own, key=rk) + sorted(inh, key=rk)          # sorted() is stable
+        out[n] = {"anc": s["anc"], "feats": [fd for fd in feats if rk(fd) <= last]}
+    return out
+
+
+def _strip(cspec, sc, schema, k):
+    """`cspec` without the slots of the features that do not exist yet after stage k."""
+    gone = {(d, scen.pyname(f)) for (d, f), i in _stage_rank(sc).items() if i > k}
+    c = clone(cspec)
+    for o in c["objs"]:
+        anc = schema[o["type"]]["anc"] if o["type"] in schema else []
+        for pn in list(o["slots"]):
+            if any((a, pn) in gone for a in anc):
+                del o["slots"][pn]
+    return c
 
 
 def _is_prim(schema, rng):
@@ -740,8 +795,106 @@ def open_finding_case(r, kind):
     return {"ts": tspec, "cas": cs, "kind": kind, "var": var, "xt": None}
 
 
+def _mutated_features(sc, schema):
+    """(declaring type, feature name) of the user features through which base and variant differ: the slot itself, or for
+    a changed array the features that hold it."""
+    d = _pair_diff(sc)
+    if d is None:
+        return []
+    decl = {(t["name"], scen.pyname(f["name"])): f["name"] for t in sc["ts"] for f in t["feats"]}
+    objs = sc["cas"]["objs"]
+    by = {o["o"]: o for o in objs}
+    out = []
+    for l, k, _va, _vb in d[0]:
+        holders = [(l, k)]
+        if k == "elements":
+            holders = [(o["o"], pn) for o in objs for pn, v in o["slots"].items()
+                       if isinstance(v, dict) and v.get("ref") == l and pn not in ("elements", "head", "tail")]
+        for hl, pn in holders:
+            for a in schema.get(by[hl]["type"], {"anc": []})["anc"]:
+                if (a, pn) in decl and (a, decl[(a, pn)]) not in out:
+                    out.append((a, decl[(a, pn)]))
+    return out
+
+
+def stage_plan(pr, sc, schema):
+    """Which user features are created only after a first rendering (one or two stages), or None when the type system has
+    no candidate.  The features through which a 'must differ' pair differs are always among them.  begin/end stay (the
+    stripped warm-up CAS must satisfy the premise like the base CAS does)."""
+    cand = [(t["name"], f["name"]) for t in sc["ts"] for f in t["feats"] if f["name"] not in ("begin", "end")]
+    if not cand:
+        return None
+    hot = [x for x in _mutated_features(sc, schema) if x in cand]
+    p = 0.3 if hot else 0.5
+    late = hot + [c for c in cand if c not in hot and pr.random() < p]
+    if not late:
+        late = [pr.choice(cand)]
+    stages = [late]
+    if len(late) > 1 and pr.random() < 0.4:
+        pr.shuffle(late)
+        cut = pr.randint(1, len(late) - 1)
+        stages = [late[:cut], late[cut:]]
+    pos = {c: i for i, c in enumerate(cand)}
+    return [[list(x) for x in sorted(st, key=pos.get)] for st in stages]
+
+
+def late_feature_case(r):
+    """The demonstration shape of a type system that grows while it is in use: a CAS over {Base, Sub <: Base} is rendered,
+    then a feature is created on Sub or on its supertype Base, then two CASes that differ only in the value of that feature
+    (a primitive value, a reference target, an element of an array held by it) are compared: the texts must differ."""
+    ann = r.random() < 0.7
+    tspec = [{"name": "a.b.Base", "super": scen.ANNOTATION if ann else scen.TOP,
+              "feats": [{"name": "label", "range": T + "String", "elem": None, "multi": None}]},
+             {"name": "a.b.Sub", "super": "a.b.Base",
+              "feats": [{"name": "k", "range": T + "Integer", "elem": None, "multi": None}]}]
+    dom = r.choice([0, 1])
+    fname = r.choice(["added", "a0", "z9"])          # sorts before, between and after the existing columns
+    what = r.choice(["int", "str", "float", "ref", "arr", "arr"])
+    f = {"name": fname, "elem": None, "multi": None}
+    objs = [{"o": 1, "type": "a.b.Sub", "id": 10, "slots": {"label": {"s": "PER"}, "k": {"i": r.randint(0, 3)}}},
+            {"o": 2, "type": "a.b.Base", "id": 11, "slots": {}}]
+    if ann:
+        e1 = r.randint(0, 3)
+        objs[0]["slots"].update({"begin": {"i": 0}, "end": {"i": e1}, "sofa": {"sofa": "_InitialView"}})
+        objs[1]["slots"].update({"begin": {"i": 1}, "end": {"i": r.randint(1, 3)}, "sofa": {"sofa": "_InitialView"}})
+    site = 0 if dom == 1 else r.choice([0, 1])       # the structure whose new feature is set: a Sub, or a Base when it has it
+    kind = "prim"
+    if what == "int":
+        f["range"] = T + r.choice(["Integer", "Long", "Short"])
+        va, vb = {"i": 1}, r.choice([{"i": 2}, None])
+    elif what == "str":
+        f["range"] = T + "String"
+        va, vb = {"s": "x"}, r.choice([{"s": "y"}, {"s": ""}, None])
+    elif what == "float":
+        f["range"] = T + "Double"
+        va, vb = {"f": scen.fl(0.5)}, r.choice([{"f": scen.fl(1.5)}, None])
+    elif what == "ref":
+        f["range"] = r.choice([scen.TOP, "a.b.Base"])
+        va, vb = {"ref": 1}, r.choice([{"ref": 2}, None])
+        kind = "ref"
+    else:
+        f["range"], f["multi"] = T + "IntegerArray", r.choice([None, False])
+        objs.append({"o": 3, "type": T + "IntegerArray", "id": 12, "slots": {"elements": {"list": [{"i": 1}, {"i": 2}]}}})
+        va = vb = {"ref": 3}
+        kind = "elem"
+    tspec[dom]["feats"].append(f)
+    cs = {"views": [{"name": "_InitialView", "text": [97, 98, 99], "mime": None}], "objs": objs, "members": [[0, 1], [0, 2]]}
+    cs["objs"][site]["slots"][fname] = va
+    var = clone(cs)
+    if kind == "elem":
+        var["objs"][2]["slots"]["elements"]["list"] = r.choice([[{"i": 1}, {"i": 3}], [{"i": 1}], [{"i": 1}, {"i": 2}, {"i": 0}]])
+    elif vb is None:
+        del var["objs"][site]["slots"][fname]
+    else:
+        var["objs"][site]["slots"][fname] = vb
+    if r.random() < 0.5:
+        cs, var = var, cs
+    return {"ts": tspec, "cas": cs, "kind": kind, "var": var, "xt": None, "stages": [[[tspec[dom]["name"], fname]]]}
+
+
 def generate(rng, tier):
     import cassis
+    import random
     n = {"quick": 340, "thorough": 2500, "search": 3000}[tier]
     kinds = EQUAL_KINDS + DIFF_KINDS
     made = 0
@@ -754,6 +907,11 @@ def generate(rng, tier):
         yield open_finding_case(rng, OPEN_KINDS[k % 2])
     for k in range(6):
         yield twin_ref_case(rng)
+    # small directed pairs over a type system that grows while in use; drawn from a private generator derived from the
+    # state of `rng` without consuming it (the streams around it stay the ones of the unstaged check)
+    pr = random.Random("late:" + ",".join(map(str, rng.getstate()[1][:8])))
+    for k in range(8):
+        yield late_feature_case(pr)
     while made < n and attempts < 60 * n:
         attempts += 1
         tspec = gen_ts(rng)
@@ -782,7 +940,15 @@ def generate(rng, tier):
         types_present = sorted({o["type"] for o in cs["objs"]})
         xt = rng.choice(types_present) if rng.random() < 0.8 else "no.such.Type"
         made += 1
-        yield {"ts": tspec, "cas": cs, "kind": kind, "var": var, "xt": xt}
+        sc = {"ts": tspec, "cas": cs, "kind": kind, "var": var, "xt": xt}
+        if made % 3 == 0:
+            # every third case (a stride coprime to the rotation of the 10 variant kinds): the type system is completed only
+            # after a first rendering (decided by a private generator derived from the case, so that the stream of cases
+            # itself is the one of the unstaged check)
+            st = stage_plan(random.Random(f"stage:{made}:{kind}:{len(cs['objs'])}"), sc, schema)
+            if st:
+                sc["stages"] = st
+        yield sc
 
 
 # ------------------------------------------------------------------------------------------------ implementation driver
@@ -816,10 +982,30 @@ def _members(views, objs):
     return [[lab.get(id(fs), 0) for fs in v.select_all()] for v in views]
 
 
+def _staged_ts(cassis, sc, obs):
+    """A fresh TypeSystem object that goes through the history of the case: the types and the stage-0 features, then per
+    stage a rendering of the base CAS restricted to the features that exist so far (observed in obs["warm"]) followed by
+    the creation of the features of the stage -- all through the public API, on one and the same object."""
+    full = scen.schema_of(cassis, sc["ts"])
+    rank = _stage_rank(sc)
+    ts = scen.build_ts(cassis, _tspec_upto(sc, 0))
+    obs["warm"] = []
+    for k in range(len(sc["stages"])):
+        casw, _vw, _ow = scen.build_cas(cassis, ts, _strip(sc["cas"], sc, full, k))
+        obs["warm"].append(_texts(cassis, casw, sc.get("xt")))
+        for t in sc["ts"]:
+            for f in t["feats"]:
+                if rank.get((t["name"], f["name"]), 0) == k + 1:
+                    ts.create_feature(ts.get_type(t["name"]), f["name"], f["range"], elementType=f.get("elem"),
+                                      multipleReferencesAllowed=f.get("multi"))
+    return ts
+
+
 def run_impl(cassis, sc):
-    ts, _schema_ = _schema(cassis, sc["ts"])
+    obs = {}
+    ts = _staged_ts(cassis, sc, obs) if sc.get("stages") else _schema(cassis, sc["ts"])[0]
     cas, views, objs = scen.build_cas(cassis, ts, sc["cas"])
-    obs = {"base": _texts(cassis, cas, sc.get("xt")), "base_members": _members(views, objs)}
+    obs.update({"base": _texts(cassis, cas, sc.get("xt")), "base_members": _members(views, objs)})
     kind = sc["kind"]
     if sc.get("var") is not None:
         cas2, views2, objs2 = scen.build_cas(cassis, ts, sc["var"])
@@ -834,8 +1020,8 @@ def run_impl(cassis, sc):
             obs["var"] = _texts(cassis, cas2, sc.get("xt"))
         except Exception as e:  # noqa
             obs["roundtrip_error"] = type(e).__name__ + ": " + str(e)[:200]
-    for side in ("base", "var"):
-        for name, d in obs.get(side, {}).items():
+    for d0 in [obs.get("base", {}), obs.get("var", {})] + obs.get("warm", []):
+        for name, d in d0.items():
             if "text" in d:
                 d["rows"] = _rows(d["text"])
     return obs
@@ -844,10 +1030,11 @@ def run_impl(cassis, sc):
 # ------------------------------------------------------------------------------------------------ oracle
 
 
-def _listing_violation(cassis, sc, cspec, rows):
+def _listing_violation(cassis, sc, cspec, rows, schema=None):
     """Structures of each annotation type come by ascending begin, then descending end; offset-less ones after them;
     and there are as many of them as the scenario has listed structures of the type."""
-    _ts, schema = _schema(cassis, sc["ts"])
+    if schema is None:
+        schema = _case_schema(cassis, sc)
     by = {o["o"]: o for o in cspec["objs"]}
     expect = {}
     for l in reach(cspec, schema):
@@ -893,6 +1080,14 @@ def oracle(cassis, sc, obs):
         for name, d in obs.get(side, {}).items():
             if "error" in d:
                 return f"raises: cas_to_comparable_text({side}, {name}) raised {d['error']}"
+    for k, w in enumerate(obs.get("warm", [])):
+        for name, d in w.items():
+            if "error" in d:
+                return f"raises: cas_to_comparable_text(rendering before stage {k + 1} of the type system, {name}) raised {d['error']}"
+        early = _case_schema(cassis, sc, upto=k)
+        msg = _listing_violation(cassis, sc, _strip(sc["cas"], sc, early, k), w["default"]["rows"], early)
+        if msg:
+            return f"listing(rendering before stage {k + 1} of the type system): " + msg
     if "roundtrip_error" in obs:
         return None       # C01/C02 territory: the variant could not be produced
     if sc.get("outside"):
@@ -951,7 +1146,7 @@ def g_cas(cspec, members):
 
 def render(sc, obs):
     import cassis
-    _ts, schema = _schema(cassis, sc["ts"])
+    schema = _case_schema(cassis, sc)
     runs = []
     strs = {"s": set(), "f": set()}
     sides = [("base", sc["cas"], "base_members")]
@@ -1111,6 +1306,8 @@ def distribution(scenarios, observations):
                 any(e is not None and e.get("ref") == o["o"] for e in o["slots"]["elements"]["list"]) for o in s["cas"]["objs"])),
             "sofa_less_annotations": sum(1 for s in scenarios if any(
                 "begin" in o["slots"] and "sofa" not in o["slots"] for o in s["cas"]["objs"])),
+            "staged_type_system": sum(1 for s in scenarios if s.get("stages")),
+            "staged_must_differ_pairs": sum(1 for s in scenarios if s.get("stages") and s["kind"] in DIFF_KINDS),
             "roundtrip_variant_unavailable": sum(1 for o in observations if o and "roundtrip_error" in o)}
 
 
